@@ -737,6 +737,36 @@ def rule_str_widths_per_character(ctx: Ctx) -> RuleResult:
     return rr
 
 
+def rule_fixed_comparisons(ctx: Ctx) -> RuleResult:
+    """A bound that can never hold bounds nothing: decode_one_right() meant to give up after four bytes with
+    `if p == p - 4` - a comparison of a variable with itself shifted by a constant, false for every p, so the backward
+    scan over continuation bytes was unbounded and its error result unreachable (fix 39d8430).  In the measuring
+    modules every comparison whose two sides are linear forms has a difference that still depends on a variable; a
+    difference that folds to a non-zero constant (or to 0 under ==) decides the test once and for all."""
+    from ..rules.util import lin_str, linear
+
+    p = ctx.p
+    rr = RuleResult("GUARD", "C11.23", "no comparison in the text-measuring modules is decided by its own shape (both sides the same linear form up to a constant)", floor=40)
+    for fi in p.functions.values():
+        if fi.module.name not in ("urwid.str_util", "urwid.util", "urwid.text_layout") or fi.is_lambda:
+            continue
+        for n in fi.own_nodes():
+            if not (isinstance(n, ast.Compare) and len(n.ops) == 1 and isinstance(n.ops[0], (ast.Eq, ast.NotEq, ast.Lt, ast.LtE, ast.Gt, ast.GtE))):
+                continue
+            a, b = linear(n.left), linear(n.comparators[0])
+            if a is None or b is None or not (set(a) - {""}) or not (set(b) - {""}):
+                continue
+            d = dict(a)
+            for k, v in b.items():
+                d[k] = d.get(k, 0) - v
+            d = {k: v for k, v in d.items() if v}
+            fixed = not (set(d) - {""})
+            rr.inst(f"{short(fi)}: {norm(n, 40)}", True, {"comparison": f"{short(fi)}: {norm(n, 50)}", "difference": lin_str(d) if d else "0"} if len(rr.samples) < 5 else None)
+            if fixed:
+                rr.add(finding("GUARD", fi, n, f"`{norm(n, 50)}` compares a quantity with itself plus a constant (difference {lin_str(d) if d else '0'}): the outcome is the same for every input, so what it guards either always or never happens - a loop bound written this way bounds nothing", construct=f"{fi.name}: comparison decided by its own shape"))
+    return rr
+
+
 def rule_one_width_source(ctx: Ctx) -> RuleResult:
     """'offset stepping, column search and width agree': they agree because every one of them takes a character's
     width from the same table, get_char_width() (get_width() for code points).  A second source - unicodedata's
@@ -915,6 +945,7 @@ def run(ctx: Ctx):
         rule_step_in_range(ctx),
         rule_utf8_scan_range(ctx),
         rule_one_width_source(ctx),
+        rule_fixed_comparisons(ctx),
         rule_memo_globals(ctx),
         rule_dbe_consulted(ctx),
         rule_one_decoder(ctx),
@@ -927,6 +958,7 @@ def run(ctx: Ctx):
 _S = "urwid/str_util.py"
 _U = "urwid/util.py"
 MUTANTS = [
+    Mut("decode-one-right-bound-on-itself", "urwid/str_util.py", "decode_one_right", "if p == pos - 4:", "if p == p - 4:", "GUARD|str_util.decode_one_right|decode_one_right: comparison decided by its own shape"),
     Mut("prev-char-scan-unbounded", "urwid/str_util.py", "move_prev_char", "while o > start_offs and text[o] & 0xC0 == 0x80:", "while text[o] & 0xC0 == 0x80:", "BOUND|str_util.move_prev_char|utf8 scan read text[o] not limited by start_offs"),
     Mut("next-char-scan-unbounded", "urwid/str_util.py", "move_next_char", "while o < end_offs and text[o] & 0xC0 == 0x80:", "while text[o] & 0xC0 == 0x80:", "BOUND|str_util.move_next_char|utf8 scan read text[o] not limited by end_offs"),
     Mut("twin-prev-char-bound-flipped", "urwid/str_util.py", "move_prev_char", "while o > start_offs and text[o] & 0xC0 == 0x80:", "while start_offs < o and text[o] & 0xC0 == 0x80:", twin=True),
